@@ -16,13 +16,18 @@ import (
 
 // Cmd is one command of a queue.
 type Cmd struct {
-	// Kind: "h2d" (fill buffer Dst with pattern Seed), "kernel" (Dst[i] = Src[i]*Mul + Add), "d2h" (read buffer Src)
+	// Kind: "h2d" (fill buffer Dst with pattern Seed), "kernel" (Dst[i] = Src[i]*Mul + Add), "d2h" (read buffer Src),
+	// "kernelp" (Dst[i] = Src[i]*Par[0] + Par[1]), "run" (the engine runs until all queues are empty before
+	// anything else is enqueued)
 	Kind string `json:"kind"`
 	Src  int    `json:"src,omitempty"`
 	Dst  int    `json:"dst,omitempty"`
 	Mul  uint32 `json:"mul,omitempty"`
 	Add  uint32 `json:"add,omitempty"`
 	Seed uint32 `json:"seed,omitempty"`
+	// Par (kind "kernelp"): the buffer whose first two dwords the kernel reads
+	// with a scalar load and uses as multiplier and addend
+	Par int `json:"par,omitempty"`
 }
 
 // Queue is one command queue with its private buffers.
@@ -82,6 +87,7 @@ func GenWith(t *rapid.T, o GenOpts) Case {
 	c.N = rapid.SampledFrom([]int{1, 17, 64, 100, 300, 1024, 1500, 4096, 4096, 8192}).Draw(t, "n")
 	c.NBuf = rapid.IntRange(2, 3).Draw(t, "nbuf")
 	nq := rapid.IntRange(1, 4).Draw(t, "nq")
+	scalarMotif := false
 	for q := 0; q < nq; q++ {
 		var qu Queue
 		qu.Ctx = rapid.IntRange(0, c.NCtx-1).Draw(t, "ctx")
@@ -106,14 +112,49 @@ func GenWith(t *rapid.T, o GenOpts) Case {
 				Cmd{Kind: "kernel", Src: a, Dst: b, Mul: mul, Add: 7, Seed: 1},
 				Cmd{Kind: "d2h", Src: b})
 		}
+		if motif == 2 && c.N >= 2 {
+			// scalar reload motif: a kernel reads its parameters from a device buffer with a
+			// scalar load, another kernel overwrites that buffer, the first kernel runs again.
+			// Both code objects have been used before and the engine runs after every launch (so
+			// that the next launch's argument buffers are allocated after it): with shared code
+			// objects no host copy that the driver precedes with a cache flush separates the launches
+			p := rapid.IntRange(0, c.NBuf-1).Draw(t, "mp")
+			a, b := p, (p+1)%c.NBuf
+			if c.NBuf >= 3 {
+				a, b = (p+1)%c.NBuf, (p+2)%c.NBuf
+			}
+			mul := rapid.SampledFrom([]uint32{3, 5}).Draw(t, "mmul2")
+			qu.Cmds = append(qu.Cmds,
+				Cmd{Kind: "kernel", Src: b, Dst: p, Mul: mul, Add: 11, Seed: 1},
+				Cmd{Kind: "run"},
+				Cmd{Kind: "kernelp", Src: a, Dst: b, Par: p},
+				Cmd{Kind: "run"},
+				Cmd{Kind: "kernel", Src: b, Dst: p, Mul: mul, Add: 11, Seed: 1},
+				Cmd{Kind: "run"},
+				Cmd{Kind: "kernelp", Src: a, Dst: b, Par: p})
+			scalarMotif = true
+			if rapid.Bool().Draw(t, "mread") {
+				qu.Cmds = append(qu.Cmds, Cmd{Kind: "d2h", Src: b})
+			}
+		}
 		n := rapid.IntRange(1, 8).Draw(t, "ncmds")
 		for i := 0; i < n; i++ {
 			var cmd Cmd
-			cmd.Kind = rapid.SampledFrom([]string{"h2d", "kernel", "kernel", "d2h"}).Draw(t, "kind")
+			cmd.Kind = rapid.SampledFrom([]string{"h2d", "kernel", "kernel", "kernelp", "d2h"}).Draw(t, "kind")
 			cmd.Src = rapid.IntRange(0, c.NBuf-1).Draw(t, "src")
 			cmd.Dst = rapid.IntRange(0, c.NBuf-1).Draw(t, "dst")
-			if cmd.Kind == "kernel" && cmd.Dst == cmd.Src {
+			if cmd.Kind == "kernelp" && c.N < 2 {
+				cmd.Kind = "kernel"
+			}
+			if (cmd.Kind == "kernel" || cmd.Kind == "kernelp") && cmd.Dst == cmd.Src {
 				cmd.Dst = (cmd.Src + 1) % c.NBuf
+			}
+			if cmd.Kind == "kernelp" {
+				// the parameter buffer is any buffer the kernel does not write
+				cmd.Par = rapid.IntRange(0, c.NBuf-1).Draw(t, "par")
+				if cmd.Par == cmd.Dst {
+					cmd.Par = cmd.Src
+				}
 			}
 			cmd.Mul = rapid.SampledFrom([]uint32{1, 2, 3, 5, 0x10001}).Draw(t, "mul")
 			cmd.Add = rapid.Uint32Range(0, 1000).Draw(t, "add")
@@ -124,7 +165,7 @@ func GenWith(t *rapid.T, o GenOpts) Case {
 	}
 	c.Chunk = rapid.IntRange(1, 3).Draw(t, "chunk")
 	c.RunEvery = rapid.SampledFrom([]int{0, 0, 1, 2}).Draw(t, "runevery")
-	c.ShareCO = rapid.Bool().Draw(t, "shareco")
+	c.ShareCO = rapid.Bool().Draw(t, "shareco") || scalarMotif
 	return c
 }
 
@@ -176,6 +217,46 @@ func ScaleKernel(mul, add uint32) *insts.KernelCodeObject {
 		Data: code, Version: insts.CodeObjectV3,
 	}
 }
+
+// ParamKernel builds the code object of out[gid] = in[gid]*par[0] + par[1],
+// par[0] and par[1] being read from device memory with one scalar load.
+func ParamKernel() *insts.KernelCodeObject {
+	a := kasm.New()
+	// s[0:1] kernarg {In, Out, Par}; s2 = work-group id x; v0 = local id x
+	a.SMEM(kasm.OpSLoadDwordx4, kasm.S(4), kasm.S(0), 0)
+	a.SMEM(kasm.OpSLoadDwordx2, kasm.S(10), kasm.S(0), 16)
+	a.SOP2(kasm.OpSLshlB32, kasm.S(8), kasm.S(2), kasm.Imm(6))
+	a.VOP2(kasm.OpVAddU32, kasm.V(1), kasm.S(8), kasm.V(0)) // gid
+	a.VOP2(kasm.OpVLshlrevB32, kasm.V(2), kasm.Imm(2), kasm.V(1))
+	a.Waitcnt(15, 7, 0)
+	a.SMEM(kasm.OpSLoadDwordx2, kasm.S(12), kasm.S(10), 0)
+	a.VOP2(kasm.OpVAddU32, kasm.V(4), kasm.S(4), kasm.V(2))
+	a.VOP1(kasm.OpVMovB32, kasm.V(5), kasm.S(5))
+	a.VOP2(kasm.OpVAddcU32, kasm.V(5), kasm.Imm(0), kasm.V(5))
+	a.FLAT(kasm.OpFlatLoadDword, kasm.V(3), kasm.V(4), kasm.None)
+	a.VOP2(kasm.OpVAddU32, kasm.V(6), kasm.S(6), kasm.V(2))
+	a.VOP1(kasm.OpVMovB32, kasm.V(7), kasm.S(7))
+	a.VOP2(kasm.OpVAddcU32, kasm.V(7), kasm.Imm(0), kasm.V(7))
+	a.Waitcnt(0, 7, 0)
+	a.VOP3a(kasm.OpVMulLoU32, kasm.V(3), kasm.V(3), kasm.S(12), kasm.Operand{})
+	a.VOP2(kasm.OpVAddU32, kasm.V(3), kasm.S(13), kasm.V(3))
+	a.FLAT(kasm.OpFlatStoreDword, kasm.None, kasm.V(6), kasm.V(3))
+	a.SOPP(kasm.OpSEndpgm, 0)
+	code, err := a.Bytes()
+	if err != nil {
+		panic(err)
+	}
+	return &insts.KernelCodeObject{
+		KernelCodeObjectMeta: &insts.KernelCodeObjectMeta{
+			KernargSegmentByteSize: 24, EnableSgprKernargSegmentPtr: true,
+			WFSgprCount: 16, WIVgprCount: 8, ComputePgmRsrc2: 2<<1 | 1<<7,
+		},
+		Data: code, Version: insts.CodeObjectV3,
+	}
+}
+
+// ParamArgs is the kernel argument block of ParamKernel.
+type ParamArgs struct{ In, Out, Par driver.Ptr }
 
 // ScaleArgs is the kernel argument block of ScaleKernel.
 type ScaleArgs struct{ In, Out driver.Ptr }
@@ -254,7 +335,7 @@ func Run(c Case) (res Result) {
 		qs[i] = st
 		ctxQueues[qu.Ctx]++
 	}
-	kernels := 0
+	kernels, scalarKernels := 0, 0
 	coCache := map[[2]uint32]*insts.KernelCodeObject{}
 	kernelFor := func(mul, add uint32) *insts.KernelCodeObject {
 		if !c.ShareCO {
@@ -267,6 +348,18 @@ func Run(c Case) (res Result) {
 		co := ScaleKernel(mul, add)
 		coCache[[2]uint32{mul, add}] = co
 		return co
+	}
+	var paramCO *insts.KernelCodeObject
+	paramKernel := func() *insts.KernelCodeObject {
+		if !c.ShareCO {
+			return ParamKernel()
+		}
+		if paramCO == nil {
+			paramCO = ParamKernel()
+		} else {
+			res.Labels = append(res.Labels, "code-object-reused")
+		}
+		return paramCO
 	}
 	allQueues := func() []*driver.CommandQueue {
 		var out []*driver.CommandQueue
@@ -301,6 +394,23 @@ func Run(c Case) (res Result) {
 					kernels++
 					d.EnqueueLaunchKernel(st.q, kernelFor(cmd.Mul, cmd.Add), [3]uint32{uint32(c.N), 1, 1}, [3]uint16{64, 1, 1},
 						&ScaleArgs{In: st.bufs[cmd.Src], Out: st.bufs[cmd.Dst]})
+				case "run":
+					// the engine runs until every queue is empty before the next command is enqueued
+					if err := pl.Run(allQueues()...); err != nil {
+						res.Err = err
+						return fail("run at command %d of queue %d fails: %v", st.next, i, err)
+					}
+				case "kernelp":
+					mul, add := st.model[cmd.Par][0], st.model[cmd.Par][1]
+					out := make([]uint32, c.N)
+					for j, v := range st.model[cmd.Src] {
+						out[j] = v*mul + add
+					}
+					st.model[cmd.Dst] = out
+					kernels++
+					scalarKernels++
+					d.EnqueueLaunchKernel(st.q, paramKernel(), [3]uint32{uint32(c.N), 1, 1}, [3]uint16{64, 1, 1},
+						&ParamArgs{In: st.bufs[cmd.Src], Out: st.bufs[cmd.Dst], Par: st.bufs[cmd.Par]})
 				case "d2h":
 					got := make([]uint32, c.N)
 					d.EnqueueMemCopyD2H(st.q, got, st.bufs[cmd.Src])
@@ -352,6 +462,9 @@ func Run(c Case) (res Result) {
 	}
 	if kernels >= 2 {
 		res.Labels = append(res.Labels, "several-kernels")
+	}
+	if scalarKernels >= 1 {
+		res.Labels = append(res.Labels, "kernel-reading-device-data-with-scalar-loads")
 	}
 	res.NonTrivial = len(c.Queues) >= 2 && kernels >= 1
 	for i, st := range qs {
